@@ -162,7 +162,8 @@ Record inv (t0 : list item) (s : state) : Prop := mkInv {
   inv_rows : forall row, In row t0 -> In row (table s) \/ In row (removed s);
   inv_sub : forall row, In row (table s) -> In row t0;
   inv_removed : forall row, In row (removed s) -> In row (deleted s);
-  inv_answers : answers s = map (fun it => (it, st_committed)) (accepted s)
+  inv_answers : committed_of (answers s) = accepted s /\
+                forall p, In p (answers s) -> snd p = st_committed \/ snd p = st_retryable
 }.
 
 Lemma cnt_pend : forall it s,
@@ -253,12 +254,19 @@ Qed.
 
 Lemma inv_step : forall c t0 e s, inv t0 s -> inv t0 (step c e s).
 Proof.
-  intros c t0 e s I. destruct e as [it| | | |rot|w o|r]; cbn [step].
+  intros c t0 e s I. destruct e as [it|it| | | |rot|w o|r]; cbn [step].
   - (* Accept *)
     destruct (room c s); [|assumption]. destruct I as [I1 I2 T1 T2 T2' T3 A].
     constructor; proj; auto.
     + intros x; rewrite !cnt_pend; proj. rewrite !cnt_app, I1, cnt_pend; proj; lia.
-    + rewrite A, map_app; reflexivity.
+    + destruct A as [A1 A2]. split.
+      * unfold committed_of in *. rewrite filter_app, map_app, A1. reflexivity.
+      * intros p Hp. apply in_app_or in Hp. destruct Hp as [Hp|[<-|[]]]; [auto|left; reflexivity].
+  - (* Refuse *)
+    destruct I as [I1 I2 T1 T2 T2' T3 A]. constructor; proj; auto.
+    destruct A as [A1 A2]. split.
+    + unfold committed_of in *. rewrite filter_app, map_app, A1. cbn. apply app_nil_r.
+    + intros p Hp. apply in_app_or in Hp. destruct Hp as [Hp|[<-|[]]]; [auto|right; reflexivity].
   - (* Recv *)
     destruct (blocked s) eqn:B; [assumption|]. destruct (queue s) as [|it q] eqn:Q; [assumption|].
     assert (I' : inv t0 (set_run q (buf s ++ [it]) None s)).
@@ -302,7 +310,8 @@ Proof. intros; apply inv_run, inv_init. Qed.
 (* ------------------------------------------------------------------ safety theorems *)
 Theorem answer_committed : forall c t0 k0 evs,
   let s := run c evs (init t0 k0) in
-  answers s = map (fun it => (it, st_committed)) (accepted s).
+  committed_of (answers s) = accepted s /\
+  forall p, In p (answers s) -> snd p = st_committed \/ snd p = st_retryable.
 Proof. intros; apply (inv_answers t0), inv_reach. Qed.
 
 Lemma deleted_accepted : forall t0 s it, inv t0 s -> In it (deleted s) -> In it (accepted s).
@@ -632,24 +641,25 @@ Module Stuck.
   Definition d := mkItem 3 1 1.
   Definition t0 := [a; b; d].
   Definition evs0 := [Accept a; Recv; Submit; Start 0; WStep 0 Ok; Accept b; Recv; Accept d].
-  Definition stuck (k : list N) : state :=
-    mkState [d] [] (Some [b]) [] [[JRequeue a]] t0 k [a; b; d]
-            [(a, st_committed); (b, st_committed); (d, st_committed)] [] [] [].
+  Definition stuck (k : list N) (ans : list (item * N)) : state :=
+    mkState [d] [] (Some [b]) [] [[JRequeue a]] t0 k [a; b; d] ans [] [] [].
 
-  Lemma reach : run c0 evs0 (init t0 []) = stuck [].
+  Lemma reach : run c0 evs0 (init t0 []) =
+                stuck [] [(a, st_committed); (b, st_committed); (d, st_committed)].
   Proof. vm_compute. reflexivity. Qed.
 
-  Lemma stuck_step : forall e k, exists k', step c0 e (stuck k) = stuck k'.
+  Lemma stuck_step : forall e k ans, exists k' ans', step c0 e (stuck k ans) = stuck k' ans'.
   Proof.
-    intros e k. destruct e as [it| | | |rot|w o|r]; try (exists k; reflexivity).
-    - destruct w as [|[|w]]; [destruct o; exists k; reflexivity|exists k; reflexivity|exists k; reflexivity].
-    - exists (r :: k); reflexivity.
+    intros e k ans. destruct e as [it|it| | | |rot|w o|r]; try (exists k, ans; reflexivity).
+    - exists k, (ans ++ [(it, st_retryable)]); reflexivity.
+    - destruct w as [|[|w]]; [destruct o; exists k, ans; reflexivity|exists k, ans; reflexivity|exists k, ans; reflexivity].
+    - exists (r :: k), ans; reflexivity.
   Qed.
 
-  Lemma stuck_run : forall evs k, exists k', run c0 evs (stuck k) = stuck k'.
+  Lemma stuck_run : forall evs k ans, exists k' ans', run c0 evs (stuck k ans) = stuck k' ans'.
   Proof.
-    induction evs as [|e evs IH]; intros k; [exists k; reflexivity|].
-    cbn [run fold_left]. destruct (stuck_step e k) as (k1 & ->). apply IH.
+    induction evs as [|e evs IH]; intros k ans; [exists k, ans; reflexivity|].
+    cbn [run fold_left]. destruct (stuck_step e k ans) as (k1 & a1 & ->). apply IH.
   Qed.
 End Stuck.
 
@@ -661,12 +671,15 @@ Theorem circular_wait_small_buffers :
   exists c t0 evs0, forall evs,
     let s := run c (evs0 ++ evs) (init t0 []) in
     length (accepted s) = 3 /\
-    answers s = map (fun it => (it, st_committed)) (accepted s) /\
+    committed_of (answers s) = accepted s /\
     (forall it, In it (accepted s) -> In it (table s) /\ In it (pend s)).
 Proof.
   exists Stuck.c0, Stuck.t0, Stuck.evs0. intros evs s.
-  unfold s. rewrite run_app, Stuck.reach. destruct (Stuck.stuck_run evs []) as (k & ->).
-  repeat split; simpl in *; intuition (subst; auto).
+  split; [|split; [apply (answer_committed Stuck.c0 Stuck.t0 [] (Stuck.evs0 ++ evs))|]];
+    unfold s; rewrite run_app, Stuck.reach;
+    destruct (Stuck.stuck_run evs [] [(Stuck.a, st_committed); (Stuck.b, st_committed); (Stuck.d, st_committed)]) as (k & ans & ->).
+  - reflexivity.
+  - simpl; intuition (subst; auto).
 Qed.
 
 (* ------------------------------------------------------------------ a concrete run used by the non-vacuity examples of Props/P_C11.v *)
